@@ -617,10 +617,11 @@ pub fn run_c10(run: &mut Run) {
     {
         let mut alpha: Vec<Vec<u8>> = vec![];
         for t in [T_PCI, T_SPDM] {
-            // SOM/EOM combinations with sequence numbers 0..=3 on the continuations; payloads of 64
-            // (the baseline transmission unit), 100 and 200 bytes
+            // SOM/EOM combinations with sequence numbers 0..=3 on the continuations; message bodies of
+            // 63 and 64 bytes (transport payload = the 64-byte baseline transmission unit, and one more),
+            // 100 and 200 bytes
             for flags in [0xC8u8, 0x88, 0x08, 0x18, 0x28, 0x38, 0x48] {
-                for len in [64usize, 100, 200] {
+                for len in [63usize, 64, 100, 200] {
                     let mut p = raw_frame(SRC, DST, t, &vec![0x5Au8; len]);
                     p[7] = flags;
                     fix_pec(&mut p);
@@ -630,7 +631,7 @@ pub fn run_c10(run: &mut Run) {
         }
         let a = alpha.len() as u64;
         let total: u64 = (1..=4u32).map(|d| a.pow(d)).sum();
-        run.sweep_chunked("every sequence of length <= 4 over 42 vendor/SPDM packets (7 SOM/EOM/sequence flag combinations x 3 sizes x 2 types)", total, |acc, lo, hi| {
+        run.sweep_chunked("every sequence of length <= 4 over 56 vendor/SPDM packets (7 SOM/EOM/sequence flag combinations x 4 sizes x 2 types)", total, |acc, lo, hi| {
             let cfg = Cfg::simple(DST);
             let owned = Owned::new(&cfg);
             for i in lo..hi {
